@@ -35,6 +35,7 @@ POOL_THEOREMS = ["Gv.Props.C08." + n for n in [
     "pool_cells_schedule_independent", "pool_locked_fold_schedule_independent",
     "pool_error_is_returned_no_deadlock", "pool_results_closed_once", "pool_asis_deadlocks",
     "pool_error_lost_without_sticky", "halfJobs_cells_disjoint", "rangeJobs_cells_overlap",
+    "rangeJobsDedup_cells_disjoint",
     "raceFree_sound", "instanceOfPool_discipline", "instanceOfPool_returns_error"]]
 POOL_LEVEL_TEXT = (
     "Lean theorems about the producer / bounded channel / n workers / wait-group transition system "
@@ -76,6 +77,10 @@ POOL_RULE = (
     "1e-9; race build: the distcpus/phase cases re-run under -race with GOMAXPROCS in {1,2,4,ncpu}. Non-trivial = "
     ">= 3 rows (>= 3 jobs), >= 1 difference and >= 1 gap or ambiguity code; for distfail: k < number of pairs and "
     "cpus >= 2")
+
+POOL_FACTS = [("distMatrix", "raceFree"), ("distMatrix", "instanceOfPool")]
+POOL_TECHNIQUE = ("Lean 4 proof over a small-step transition system (all schedules) + decidable lock-set/happens-before "
+                  "check over regenerated go/ast facts + race-detector / watchdog runs + metamorphic pairs")
 
 CPUS = [1, 2, 3, 8, 16, 32]
 WATCH_MS = 10000          # in-process hang watchdog (ms); the calls normally take < 10 ms
@@ -266,6 +271,16 @@ def accepts(c):
     return c.model == c.impl
 
 
+def pool_race_cases(cases, tier):
+    """which cases are re-run under the race detector: the thread-count cases (a subset in the quick tier) and the
+    error path (each failing-model case waits for the 10 s watchdog on the unchanged tree)"""
+    cs = [c for c in cases if c.op == "distcpus"]
+    fails = [c for c in cases if c.op == "distfail" and c.tag != "distfail-never" and c.args[1] != "1"]
+    if tier == "quick":
+        return [c for c in cs if c.tag != "distcpus"] + [c for c in cs if c.tag == "distcpus"][:14] + fails[:4]
+    return cs + fails[:40]
+
+
 def classify_pool_case(c):
     """known-finding id for a failing pool case of C08"""
     if c.op == "distfail" and c.impl == "hang" and "hang" in (c.model or "").split("|"):
@@ -315,6 +330,25 @@ def facts_report(which):
     own = set(int(x) for x in r[6].split(",") if x.isdigit())
     return {"raceFree": b(r[0]), "instanceOfPool": b(r[1]), "discipline": r[2], "racePairs": pairs,
             "inputsUnmodified": b(r[4]), "orfSearch": r[5], "ownCellLines": own, "raw": r}
+
+
+def kernel_check_facts(pid, claims):
+    """`claims` = [(lean term : Bool, value)].  Each is stated as `example : <term> = <value> := by decide` and checked
+    by Lean's kernel (no native evaluation): the oracle's answer about the regenerated facts is thereby a checked
+    `decide` statement, in whichever direction it falls.  Returns (ok, output)."""
+    path = os.path.join(common.BUILD, "FactsCheck_%s.lean" % pid)
+    src = ["import Gv.Gen.Facts", "open Gv.Model.Facts Gv.Gen.Facts", ""]
+    for term, val in claims:
+        src.append("set_option maxRecDepth 100000 in")
+        src.append("example : %s = %s := by decide" % (term, "true" if val else "false"))
+    open(path, "w").write("\n".join(src) + "\n")
+    with common.Lock():
+        rc, out = common.run(["lake", "env", "lean", path], cwd=common.LEAN, timeout=600)
+    return rc == 0, out[-1500:]
+
+
+FACT_TERMS = {"raceFree": "raceFree %s", "instanceOfPool": "instanceOfPool %s",
+              "inputsUnmodified": "inputsUnmodified phaseMutCalls"}
 
 
 # ------------------------------------------------------------------------------------------------
@@ -489,6 +523,14 @@ def pool_check(mod, tier, seed):
     for which in sorted({w for w, _ in mod.FACTS}):
         facts[which] = facts_report(which)
     false_facts = []
+    claims = [((FACT_TERMS[pred] % which) if "%s" in FACT_TERMS[pred] else FACT_TERMS[pred], facts[which][pred][0])
+              for which, pred in mod.FACTS]
+    kok, kout = kernel_check_facts(mod.ID, claims)
+    res.add_obligation("facts values kernel-checked (`example : <check> Gen.Facts.… = <value> := by decide`)", kok,
+                       "facts", "" if kok else kout)
+    if not kok:
+        p = common.write_replay(mod.ID, "facts-kernel", {"property": mod.ID, "claims": claims, "lean_output": kout})
+        res.violations.append(("oracle and kernel disagree about the facts checks", "", p, True))
     for which, pred in mod.FACTS:
         okp, detail = facts[which][pred]
         name = "facts:%s(Gen.Facts.%s)" % (pred, which if pred != "inputsUnmodified" else "phaseMutCalls")
